@@ -169,7 +169,15 @@ def check(tier, seed):
     ts = tasks(tier, seed) + schedule_replay.gen_tasks(PID, "pc", tier, info, quick_stride=3)
 
     def extra(res, done):
+        from .. import tlc
         res.notes["model_schedules_forced_onto_impl"] = info
+        # unbounded: any configuration set, any epsilon relation, any limit, any pop order (TLAPS)
+        n = tlc.run_tlaps("PdaClosureProof")
+        res.notes["tlaps"] = {"module": "spec/proofs/PdaClosureProof.tla", "obligations_proved": n,
+                              "theorems": ["Invariance", "Sound", "ExactWhenExhausted", "CompleteBelowLimit"],
+                              "meaning": "for every pop order and limit the (possibly truncated) result of the bounded "
+                                         "worklist loop is inside the epsilon closure; if the closure has at most "
+                                         "`limit` configurations the loop is never cut short and returns it exactly"}
 
     return base.standard_check(PID, tier, seed, ts, MODELS[tier], RULE, nontrivial, extra=extra,
                                assumptions=["words <= 3 (4)", "completeness is judged for a word when every exact "
